@@ -194,7 +194,7 @@ func vfCopy(src, dst string) error {
 }
 
 func vfMakeTemplate(dir string) error {
-	db, err := walletdb.Create("bdb", filepath.Join(dir, "neutrino.db"), true, 10*time.Second, false)
+	db, err := walletdb.Create("bdb", filepath.Join(dir, "neutrino.db"), false, 10*time.Second, false)
 	if err != nil {
 		return err
 	}
@@ -213,7 +213,7 @@ func vfMakeTemplate(dir string) error {
 }
 
 func (e *vfEnv) open() error {
-	db, err := walletdb.Open("bdb", filepath.Join(e.dir, "neutrino.db"), true, 10*time.Second, false)
+	db, err := walletdb.Open("bdb", filepath.Join(e.dir, "neutrino.db"), false, 10*time.Second, false)
 	if err != nil {
 		return fmt.Errorf("db open: %w", err)
 	}
